@@ -61,6 +61,7 @@ def parseOp (kind : String) (kv : KV) : Option Op :=
                           exact := intOf (kv.get "exact"), minLiq := intOf (kv.get "minliq"), deadline := intOf (kv.get "dl") })
   | "remove" => some (.remove { sender := addrStr (kv.get "sender"), lptDenom := unesc (kv.get "lpt"), withdraw := intOf (kv.get "w"),
                                 minToken := intOf (kv.get "mintok"), minStd := intOf (kv.get "minstd"), deadline := intOf (kv.get "dl") })
+  | "autoswap" => some (.autoSwap (kv.get "rcpt") (unesc (kv.get "ind")) (natOf (kv.get "maxin")) (natOf (kv.get "out")))
   | "send" => some (.send (kv.get "src") (kv.get "dst") (unesc (kv.get "d")) (natOf (kv.get "amt")))
   | _ => none
 
@@ -81,6 +82,7 @@ def respEq (kind : String) (m i : Resp) : Bool :=
   match kind with
   | "swap" => true
   | "send" => true
+  | "autoswap" => true
   | _ => m == i
 
 def branchOf (s : State) : Op → String
@@ -89,6 +91,7 @@ def branchOf (s : State) : Op → String
   | .add m => (match s.poolByCounter m.tokDenom with
                | none => "add-create"
                | some p => if s.bank.supply p.lpt == 0 then "add-refill" else "add-live")
+  | .autoSwap _ _ _ _ => "autoswap"
   | .remove _ => "remove"
   | .send _ dst _ _ => if dst.startsWith "e." then "donate" else "send"
   | _ => "other"
@@ -101,6 +104,7 @@ def opMagnitude : Op → String
   | .add m => magnitude m.exact.toNat
   | .remove m => magnitude m.withdraw.toNat
   | .send _ _ _ a => magnitude a
+  | .autoSwap _ _ _ out => magnitude out
   | _ => "-"
 
 structure Acc where
